@@ -382,7 +382,7 @@ func (c *checker) firstUse() {
 		for j := i; j < len(ops); j++ {
 			pair := []int{i, j}
 			got := make([]string, 2)
-			e := &mcrt.Explorer{MaxPreempt: 2, MaxDelay: 2, MaxSteps: 1 << 20, Races: true, Body: func() {
+			e := &mcrt.Explorer{Embedded: true, MaxPreempt: 2, MaxDelay: 2, MaxSteps: 1 << 20, Races: true, Body: func() {
 				u := c.d.build()
 				var wg mcrt.WaitGroup
 				for t, oi := range pair {
